@@ -96,9 +96,28 @@ def frame_programs():
     return out
 
 
+LAST_STATEMENTS = ["ON X GOTO 10", "ON 5 GOTO 10,10", "N=N+1:ON 2-N GOTO 10", "IF 0 THEN 10", "IF N>0 THEN GOTO 10", "ON X GOSUB 10", "ON 9 GOSUB 10,10",
+                   "FOR I=1 TO 1:NEXT", "WHILE 0:WEND", "IF 0 THEN END", "IF 0 THEN PRINT 1 ELSE IF 0 THEN 10", "N=N+1:IF N<3 THEN 10", "GOSUB 10",
+                   "N=N+1:IF N<2 THEN GOSUB 10", "DEF FNA(X)=X", "DATA 1", "REM", "PRINT 2:END", "N=N+1:IF N<3 THEN GOTO 10 ELSE END", "STOP",
+                   "N=N+1:WHILE N<3:N=N+1:WEND", "RESTORE", "RESTORE 10", "ON X GOTO 10:REM"]
+
+
+def last_statement_programs():
+    """the program ends with each kind of statement, falling off the end: nothing may run behind the last line"""
+    out = []
+    for last in LAST_STATEMENTS:
+        first = '10 PRINT "A";:IF N>5 THEN END'
+        if last.startswith("GOSUB") or "THEN GOSUB" in last or "GOSUB 10" in last:
+            first = '10 PRINT "A";:N=N+1:IF N>3 THEN END'
+        out.append(([first, "20 " + last], []))
+        out.append(([first, "20 " + last, "30 REM tail"], []))
+        out.append((["5 GOTO 10", first, "20 " + last], []))
+    return out
+
+
 def gen(tier, rng):
     cases = []
-    progs = list(CORPUS) + frame_programs()
+    progs = list(CORPUS) + frame_programs() + last_statement_programs()
     n = 500 if tier == "quick" else 20000
     for _ in range(n):
         progs.append(gen_prog.generate(rng))
